@@ -357,6 +357,34 @@ func init() {
 			return nil
 		},
 
+		// ---- sync.Pool: Get may hand back any object Put earlier, or a fresh one ----
+		"(*sync.Pool).Put": func(m *Machine, c *frame, f *ssa.Function, a []Value) Value {
+			p := a[0].(Ptr)
+			l, _ := m.side[p].([]Value)
+			m.side[p] = append(l, a[1])
+			return nil
+		},
+		"(*sync.Pool).Get": func(m *Machine, c *frame, f *ssa.Function, a []Value) Value {
+			p := a[0].(Ptr)
+			l, _ := m.side[p].([]Value)
+			if len(l) > 0 && m.choose("pool", 2) == 0 {
+				v := l[len(l)-1]
+				m.side[p] = l[:len(l)-1]
+				return v
+			}
+			st := under(deref(f.Signature.Recv().Type())).(*types.Struct)
+			for i := 0; i < st.NumFields(); i++ {
+				if st.Field(i).Name() == "New" {
+					nf := (*p).(Struct)[i]
+					if isNilFunc(nf) {
+						return Iface{}
+					}
+					return m.call(c, token.NoPos, nf, nil)
+				}
+			}
+			return Iface{}
+		},
+
 		// ---- atomics (on the pointed-to cell) ----
 		"sync/atomic.AddInt32":  atomicAdd, "sync/atomic.AddInt64": atomicAdd, "sync/atomic.AddUint32": atomicAdd, "sync/atomic.AddUint64": atomicAdd,
 		"sync/atomic.LoadInt32": atomicLoad, "sync/atomic.LoadInt64": atomicLoad, "sync/atomic.LoadUint32": atomicLoad, "sync/atomic.LoadUint64": atomicLoad,
@@ -698,7 +726,9 @@ func sortSlice(m *Machine, c *frame, f *ssa.Function, a []Value) Value {
 }
 
 func (m *Machine) chooseNamed(name string, n int) int {
+	m.harnessChoose = true
 	k := m.choose(name, n)
+	m.harnessChoose = false
 	m.tracef("choose %s=%d", name, k)
 	return k
 }
